@@ -6,6 +6,8 @@ import DclabModel.DriveUtil
                                                  mu20 mu11 mu02 mu30 mu21 mu12 mu03 mu20/mu02
     volrev <pi> <scale> <r,z> …               → volume | `err:assert`
     vol <pi> <pix> <posx> <posy> <x,y> …      → volume | `nan`
+    volfix <pi> <pix> <posx> <posy> <cw:0|1> <x,y> …  → get_volume(fix_orientation=True) | `nan`
+                                                 (cw = outcome of the orientation test)
     bright <off|-> <m:img:bg> …               → avg var p10 p90   (offset applied to avg, p10, p90)
     perc <q> <v> …                            → np.percentile(v, q)
     truth <arr|list> <n> <nz:0|1>             → isTrue | isFalse | raises   (pre-fix `if bg_off:`)
@@ -57,6 +59,15 @@ def handle (_ : Unit) (line : String) : Unit × String :=
       match getVolume pi c px py pix with
       | some v => ((), showRat v)
       | none => ((), "nan")
+    | _, _, _, _, _ => bad
+  | "volfix" :: pi :: pix :: px :: py :: cw :: pts =>
+    match parseRat? pi, parseRat? pix, parseRat? px, parseRat? py, pts.mapM parsePt with
+    | some pi, some pix, some px, some py, some c =>
+      if cw = "0" ∨ cw = "1" then
+        match getVolumeFix pi c px py pix (cw = "1") with
+        | some v => ((), showRat v)
+        | none => ((), "nan")
+      else bad
     | _, _, _, _, _ => bad
   | "bright" :: off :: pxs =>
     let off? : Option (Option Rat) := if off = "-" then some none else (parseRat? off).map some
